@@ -291,6 +291,9 @@ func dependsOnX(w *World, v ssa.Value, pred func(ssa.Value) bool, ctl bool) bool
 			if x.Op == token.MUL {
 				switch a := x.X.(type) {
 				case *ssa.Alloc:
+					if pred(a) {
+						return true
+					}
 					found := false
 					w.eachStore(a, func(st *ssa.Store) {
 						if walk(st.Val) {
